@@ -184,14 +184,24 @@ let xls_base (fmt : string) : (BinNums.coq_N * BinNums.coq_N) option option =
      | _ -> None)
   else None
 
+(* "xlsb" or "xlsb@R:C" *)
+let xlsb_base (fmt : string) : (BinNums.coq_N * BinNums.coq_N) option option =
+  if fmt = "xlsb" then Some None
+  else if String.length fmt > 5 && String.sub fmt 0 5 = "xlsb@" then
+    (match String.split_on_char ':' (String.sub fmt 5 (String.length fmt - 5)) with
+     | [r; c] -> Some (Some (n_of_string r, n_of_string c))
+     | _ -> None)
+  else None
+
 let run_raw (args : string list) : string =
   match args with
   | [fmt; sh; nm; xt; hex] when xls_base fmt <> None ->
     let base = (match xls_base fmt with Some b -> b | None -> None) in
     let env = { xe_sheets = name_list sh; xe_names = name_list nm; xe_xtis = xti_list xt; xe_base = base } in
     out_str (xls_parse_formula show_f64 env (bytes_of_hex hex))
-  | ["xlsb"; sh; nm; hex] ->
-    let env = { be_sheets = name_list sh; be_names = name_list nm } in
+  | [fmt; sh; nm; hex] when xlsb_base fmt <> None ->
+    let base = (match xlsb_base fmt with Some b -> b | None -> None) in
+    let env = { be_sheets = name_list sh; be_names = name_list nm; be_base = base } in
     out_str (xlsb_parse_formula show_f64 env (bytes_of_hex hex))
   | _ -> "bad-args"
 
@@ -208,8 +218,9 @@ let run_ast (args : string list) : string =
                         hex_of_scalars (render_xls show_f64 env ex);
                         "-";   (* no known class is left *)
                         (if wf_xls env ex then "1" else "0") ]
-  | "xlsb" :: sh :: nm :: ast :: _ ->
-    let env = { be_sheets = name_list sh; be_names = name_list nm } in
+  | fmt :: sh :: nm :: ast :: _ when xlsb_base fmt <> None ->
+    let base = (match xlsb_base fmt with Some b -> b | None -> None) in
+    let env = { be_sheets = name_list sh; be_names = name_list nm; be_base = base } in
     let ex = parse_ast (Array.of_list (String.split_on_char ' ' ast)) in
     let bytes = bytes_of_hex (hex_of_bytes (encode_xlsb ex)) in
     String.concat "|" [ hex_of_bytes bytes;
